@@ -27,7 +27,8 @@ EXPLANATION = (
     "A property over call histories whose mechanism is who writes what and what is refreshed before it is read - decided by effect "
     "analysis over the class hierarchy and by the symbolic executor: (a) HP-FROZEN - in every estimator class each constructor "
     "parameter is stored verbatim in __init__ (self.q = q: clone/set_params == fresh construction under the sktime model) and is "
-    "written nowhere else in the class's methods; (b) REFIT-BEFORE-EVALUATE - on every path of every detection driver each "
+    "written nowhere else in the class's methods, and the scorers derived from them by the to_* helpers are the same object or an "
+    "adapter on that very object, never a copy (C06.c re-run here: nested set_params reach the object in use); (b) REFIT-BEFORE-EVALUATE - on every path of every detection driver each "
     "scorer.evaluate is preceded by a fit of the same object on the current X (the evaluate atoms carry the data they were fitted "
     "on); (c) NO-STALE-READ - predict/transform paths read only hyper-parameters, constructor-derived attributes, attributes "
     "written on the fit path and what they wrote earlier themselves; they write nothing but the published `scores`; a read of "
@@ -68,8 +69,23 @@ def check(ctx):
     ctx.guard("C10.d NO-ARG-MUTATION", "detectors", lambda: check_detector_mutation(ctx))
     ctx.guard("C10.e UPDATE-IS-REFIT", "update", lambda: check_update(ctx, det_base))
     ctx.guard("C10.f OWNED-FITTED-STATE", "anomaliser", lambda: owned_fitted_state(ctx))
+    ctx.guard("C10.a HP-FROZEN", "derived-scorers", lambda: derived_alias(ctx))
     ctx.expect_min("C10.a HP-FROZEN", sum(1 for o in ctx.obs if o.rule == "C10.a HP-FROZEN" and o.status == "HOLDS"), 15)
     ctx.expect_min("C10.b REFIT-BEFORE-EVALUATE", sum(1 for o in ctx.obs if o.rule == "C10.b REFIT-BEFORE-EVALUATE" and o.status == "HOLDS"), 6)
+
+
+def derived_alias(ctx):
+    """The scorers a detector derives from its hyper-parameters in __init__ (to_change_score / to_saving /
+    to_local_anomaly_score) are the user's object itself or an adapter built on that very object - never a copy: nested
+    set_params(<scorer>__<param>=...) and get_params() then talk about the object the detector really uses.  The C06.c
+    PASS-THROUGH obligations, re-run under the C10 id."""
+    from . import c06
+
+    before = len(ctx.obs)
+    c06.check_passthrough(ctx)
+    for o in ctx.obs[before:]:
+        if "PASS-THROUGH" in o.rule:
+            o.rule = f"C10.a HP-FROZEN ({o.rule})"
 
 
 def owned_fitted_state(ctx):
